@@ -19,7 +19,9 @@
                  remaining_bytes.rs 31-34, unsized_list.rs 186-205, unsized_map.rs 318-360,
                  star_frame_proc/src/idl/type_to_idl.rs (structs 94-154, enums 156-197),
                  data_types/packed_value.rs 336-351 (PackedValue<T> is T), idl/ty.rs (primitives, [T;N]).
-   * `embed` : the owned value as the IDL-decoded tree. *)
+   * `embed` : the owned value as the IDL-decoded tree.
+   * `skip_struct_to_idl` / `skip_enum_to_idl` : `#[type_to_idl(skip)]` - the description lists the fields in front of
+               the marked one only (type_to_idl.rs `idl_struct_type_def`, take_while). *)
 From SF Require Import Base.Prelude Unsized.Types.
 
 (* ---------------------------------------------------------------------------------------------- *)
@@ -448,6 +450,50 @@ Fixpoint sty_ok (last : bool) (s : sty) {struct s} : bool :=
          | (_, Some t) :: r => sty_ok last t && go r
          end) vs
   end.
+
+(* ---------------------------------------------------------------------------------------------- *)
+(* #[type_to_idl(skip)]  (star_frame_proc/src/idl/type_to_idl.rs `idl_struct_type_def`, lib.rs 775-777: "this field
+   and all remaining fields will be skipped in the IDL definition").  The derive walks the field list of a struct or
+   of an enum variant with `take_while(!skip)`: only the fields IN FRONT of the marked one are evaluated (their
+   definitions added) and listed, so the description is a prefix of the runtime layout.  `k` is the index of the
+   marked field; `k >= length fs` = no field is marked (the struct of `fix_to_idl (XStruct fs)`).
+   Fields are the fixed-size leaves `sfix`: what packed Pod structs and borsh structs of fixed-size fields are made
+   of; their runtime bytes are the concatenation of the field bytes (`erase_fix (XStruct fs)`). *)
+Definition skip_struct_to_idl (fs : list sfix) (k : nat) (defs : list ity) : ity * list ity :=
+  let (ts, d) := fixes_to_idl (firstn k fs) defs in (IDefined (length d), d ++ [IStruct ts]).
+
+(* a #[repr(u8)] enum whose variants are unit (None) or carry a field list with its own skip position *)
+Fixpoint skip_variants_to_idl (vs : list (Z * option (list sfix * nat))) (defs : list ity)
+  : list (list Z * option ity) * list ity :=
+  match vs with
+  | [] => ([], defs)
+  | (d, None) :: r => let (ivs, d2) := skip_variants_to_idl r defs in (([d], None) :: ivs, d2)
+  | (d, Some (fs, k)) :: r =>
+      let (ts, d1) := fixes_to_idl (firstn k fs) defs in
+      let (ivs, d2) := skip_variants_to_idl r d1 in (([d], Some (IStruct ts)) :: ivs, d2)
+  end.
+
+Definition skip_enum_to_idl (vs : list (Z * option (list sfix * nat))) (defs : list ity) : ity * list ity :=
+  let (ivs, d) := skip_variants_to_idl vs defs in (IDefined (length d), d ++ [IEnum (IPrim P_U8) ivs]).
+
+(* the variant the discriminant byte selects (first declared wins; rustc makes them distinct) *)
+Fixpoint find_skip_variant (d : Z) (vs : list (Z * option (list sfix * nat))) : option (option (list sfix * nat)) :=
+  match vs with
+  | [] => None
+  | (d', p) :: r => if d' =? d then Some p else find_skip_variant d r
+  end.
+
+Definition skip_variants_ok (vs : list (Z * option (list sfix * nat))) : bool :=
+  forallb (fun dv => (0 <=? fst dv) && (fst dv <? 256) &&
+                     match snd dv with Some (fs, _) => forallb fix_ok fs | None => true end) vs.
+
+(* byte size of the first k fields: where an IDL-following reader stops *)
+Fixpoint fixes_size (fs : list sfix) : nat :=
+  match fs with [] => O | f :: r => (fsize (erase_fix f) + fixes_size r)%nat end.
+
+(* what the mutant of the seeded change C17j emits instead: only the marked field is left out *)
+Definition hole_struct_to_idl (fs : list sfix) (k : nat) (defs : list ity) : ity * list ity :=
+  let (ts, d) := fixes_to_idl (firstn k fs ++ skipn (S k) fs) defs in (IDefined (length d), d ++ [IStruct ts]).
 
 (* ---------------------------------------------------------------------------------------------- *)
 (* integer codecs of the runner                                                                    *)
